@@ -18,7 +18,7 @@ BordersClauses ==
      partition   |-> part,
      internal    |-> (part /\ (~Rec.kr \/ KramersPaired(E, Rec.th))) => InternalGapsSmall(E, Gs, Rec.th),
      boundary    |-> part => BoundaryGapsLarge(E, Gs, Rec.th),
-     kramers     |-> Rec.kr => BoundariesEven(G) ]
+     kramers     |-> Rec.kr => BoundariesEven(Gs) ]
 WindowClauses ==
    LET E == AsSeq(Rec.E)  S == {k + 1 : k \in SetOf(Rec.out)} IN
    [ equals_spec  |-> S = SelectWindow(E, Rec.th, Rec.lo, Rec.hi, Rec.incl),
